@@ -64,6 +64,10 @@ pub struct Spec {
     /// message-type directory but none of the shipped scenarios, then the shipped directory
     #[serde(default)]
     pub overlay: bool,
+    /// path "sample": which public sample API is used — 0 generate_sample_with_config, 1 the
+    /// SampleGenerator builder, 2 generate_sample with the paths taken from SWIFT_SCENARIO_PATH
+    #[serde(default)]
+    pub sample_api: u8,
 }
 
 /// An overlay scenario directory: `<verif>/work/overlay/mtNNN/zz_overlay_only.json` for every type.
@@ -593,19 +597,35 @@ fn judge(sc: &scen::Scenario, d: &Value, out: &mut Outcome) -> Option<Violation>
     None
 }
 
-fn run_sample_typed<T>(sc: &scen::Scenario, overlay: Option<&std::path::PathBuf>, out: &mut Outcome)
+fn run_sample_typed<T>(sc: &scen::Scenario, overlay: Option<&std::path::PathBuf>, api: u8, out: &mut Outcome)
 where
     T: SwiftMessageBody + serde::de::DeserializeOwned,
 {
     let mt = format!("MT{}", sc.mt);
-    let cfg = match overlay {
+    let paths: Vec<std::path::PathBuf> = match overlay {
         Some(o) => {
             out.count("config.scenario_lookup_through_two_base_paths", 1);
-            ScenarioConfig::with_paths(vec![o.clone(), scen::scenario_root()])
+            vec![o.clone(), scen::scenario_root()]
         }
-        None => ScenarioConfig::with_paths(vec![scen::scenario_root()]),
+        None => vec![scen::scenario_root()],
     };
-    let m = match swift_mt_message::generate_sample_with_config::<T>(&mt, Some(&sc.name), &cfg) {
+    let generated = match api % 3 {
+        1 => {
+            out.count("config.sample_api.SampleGenerator_builder", 1);
+            swift_mt_message::SampleGenerator::with_config(ScenarioConfig::with_paths(vec![])).with_paths(paths.clone()).generate::<T>(&mt, Some(&sc.name))
+        }
+        2 => {
+            // the worker process executes one run at a time, so the process environment is the run's
+            out.count("config.sample_api.generate_sample_with_env_paths", 1);
+            let joined = paths.iter().map(|p| p.to_string_lossy().to_string()).collect::<Vec<_>>().join(":");
+            unsafe { std::env::set_var("SWIFT_SCENARIO_PATH", &joined) };
+            let r = swift_mt_message::generate_sample::<T>(&mt, Some(&sc.name));
+            unsafe { std::env::remove_var("SWIFT_SCENARIO_PATH") };
+            r
+        }
+        _ => swift_mt_message::generate_sample_with_config::<T>(&mt, Some(&sc.name), &ScenarioConfig::with_paths(paths.clone())),
+    };
+    let m = match generated {
         Ok(m) => m,
         Err(e) => {
             out.violation = Some(violation(format!("C15/O4 {mt} generate_sample failed"), format!("{}: {e}", sc.rel)));
@@ -643,8 +663,8 @@ where
     }
 }
 
-fn run_sample(sc: &scen::Scenario, overlay: Option<&std::path::PathBuf>, out: &mut Outcome) {
-    with_type!(sc.mt.as_str(), T => run_sample_typed::<T>(sc, overlay, out), {
+fn run_sample(sc: &scen::Scenario, overlay: Option<&std::path::PathBuf>, api: u8, out: &mut Outcome) {
+    with_type!(sc.mt.as_str(), T => run_sample_typed::<T>(sc, overlay, api, out), {
         out.harness_error = Some(format!("unknown message type {}", sc.mt));
     })
 }
@@ -722,6 +742,7 @@ impl Engine for C15 {
                 vec![]
             },
             overlay: wl.chance(1, 2),
+            sample_api: wl.below(3) as u8,
         }
     }
 
@@ -761,6 +782,7 @@ impl Engine for C15 {
         let spec_c = spec.clone();
         let diag = spec.diag;
         let overlay_dir = if spec.overlay && spec.path == "sample" { Some(ensure_overlay(&env.scenarios)) } else { None };
+        let sample_api = spec.sample_api;
         // the worker process executes one run at a time, so the process environment is the run's
         match &spec.tz {
             Some(tz) => unsafe { std::env::set_var("TZ", tz) },
@@ -775,7 +797,7 @@ impl Engine for C15 {
             let _ = std::collections::hash_map::RandomState::new();
             with_diag(diag, || {
                 if path == "sample" {
-                    run_sample(&sc, overlay_dir.as_ref(), &mut o2)
+                    run_sample(&sc, overlay_dir.as_ref(), sample_api, &mut o2)
                 } else if path == "interleaved" {
                     run_interleaved(&scs, &spec_c, &ctx2, &mut o2)
                 } else {
